@@ -1,44 +1,24 @@
-"""Budgets per property and tier.  `runs` / `fault_runs` are upper bounds; `wall_s` stops submission."""
+"""Budgets per property and tier.  `runs` / `fault_runs` are upper bounds; `wall_s` stops submission of new seeds
+(every seed is a deterministic run, so a time-limited batch never makes a verdict flaky: it only bounds how many
+seeds are explored)."""
+
+
+def _p(engine, q_runs, q_faults, t_runs, t_faults, per_task=180):
+    return (engine, {
+        "quick": {"runs": q_runs, "fault_runs": q_faults, "wall_s": 50, "per_task_s": per_task},
+        "thorough": {"runs": t_runs, "fault_runs": t_faults, "wall_s": 1000, "per_task_s": 2 * per_task},
+    })
+
 
 PLANS = {
-    "C03": ("asm", {
-        "quick": {"runs": 600, "fault_runs": 0, "wall_s": 70, "per_task_s": 120},
-        "thorough": {"runs": 60000, "fault_runs": 0, "wall_s": 900, "per_task_s": 300},
-    }),
-    "C04": ("bc", {
-        "quick": {"runs": 400, "fault_runs": 100, "wall_s": 70, "per_task_s": 120},
-        "thorough": {"runs": 30000, "fault_runs": 8000, "wall_s": 900, "per_task_s": 300},
-    }),
-    "C05": ("dyn", {
-        "quick": {"runs": 400, "fault_runs": 100, "wall_s": 70, "per_task_s": 120},
-        "thorough": {"runs": 40000, "fault_runs": 10000, "wall_s": 900, "per_task_s": 300},
-    }),
-    "C11": ("law", {
-        "quick": {"runs": 1500, "fault_runs": 0, "wall_s": 70, "per_task_s": 120},
-        "thorough": {"runs": 200000, "fault_runs": 0, "wall_s": 900, "per_task_s": 300},
-    }),
-    "C14": ("fresh", {
-        "quick": {"runs": 220, "fault_runs": 60, "wall_s": 70, "per_task_s": 120},
-        "thorough": {"runs": 20000, "fault_runs": 5000, "wall_s": 900, "per_task_s": 300},
-    }),
-    "C15": ("hist", {
-        "quick": {"runs": 300, "fault_runs": 120, "wall_s": 70, "per_task_s": 120},
-        "thorough": {"runs": 30000, "fault_runs": 12000, "wall_s": 900, "per_task_s": 300},
-    }),
-    "C17": ("pf", {
-        "quick": {"runs": 400, "fault_runs": 80, "wall_s": 70, "per_task_s": 180},
-        "thorough": {"runs": 30000, "fault_runs": 6000, "wall_s": 900, "per_task_s": 300},
-    }),
-    "C18": ("hyper", {
-        "quick": {"runs": 160, "fault_runs": 40, "wall_s": 75, "per_task_s": 240},
-        "thorough": {"runs": 12000, "fault_runs": 3000, "wall_s": 900, "per_task_s": 400},
-    }),
-    "C19": ("mat", {
-        "quick": {"runs": 600, "fault_runs": 100, "wall_s": 70, "per_task_s": 120},
-        "thorough": {"runs": 60000, "fault_runs": 10000, "wall_s": 900, "per_task_s": 300},
-    }),
-    "C20": ("mpi", {
-        "quick": {"runs": 200, "fault_runs": 60, "wall_s": 75, "per_task_s": 240},
-        "thorough": {"runs": 15000, "fault_runs": 4000, "wall_s": 900, "per_task_s": 400},
-    }),
+    "C03": _p("asm", 6000, 0, 400000, 0),
+    "C04": _p("bc", 5000, 1500, 300000, 100000),
+    "C05": _p("dyn", 5000, 1500, 300000, 100000),
+    "C11": _p("law", 8000, 0, 600000, 0),
+    "C14": _p("fresh", 3000, 800, 200000, 60000),
+    "C15": _p("hist", 5000, 2500, 300000, 150000),
+    "C17": _p("pf", 3500, 800, 200000, 50000),
+    "C18": _p("hyper", 400, 100, 40000, 10000, per_task=300),
+    "C19": _p("mat", 2500, 500, 200000, 40000),
+    "C20": _p("mpi", 2500, 800, 150000, 50000, per_task=300),
 }
